@@ -18,6 +18,23 @@ Proof.
   intros; unfold cy_restore. destruct (t_old_cython tk) as [[| | |]|]; split; auto using aframe_refl, aframe_set.
 Qed.
 
+Definition uncap (tk : ptoks) (s : st) : st := if t_capture_started tk then uncapture s else s.
+Lemma run_fstep_uncapture : forall e tk s, run_fstep e tk FUncapture s = Some (uncap tk s).
+Proof. reflexivity. Qed.
+Lemma uncapture_facts : forall s,
+  aframe [k_showwarning; k_saved_showwarning] s (uncapture s) /\ rest (uncapture s) = rest s.
+Proof.
+  intros s; unfold uncapture.
+  assert (X : forall v, aframe [k_showwarning; k_saved_showwarning] s
+                (set_attr k_saved_showwarning VNone (set_attr k_showwarning v s))).
+  { intros v k N. rewrite get_set_neq by (intros ->; apply N; right; left; reflexivity).
+    apply get_set_neq. intros ->; apply N; left; reflexivity. }
+  destruct (get k_saved_showwarning s) as [[| | |]|]; split; auto using aframe_refl.
+Qed.
+Lemma uncap_facts : forall tk s,
+  aframe [k_showwarning; k_saved_showwarning] s (uncap tk s) /\ rest (uncap tk s) = rest s.
+Proof. intros; unfold uncap. destruct (t_capture_started tk); [apply uncapture_facts|split; auto using aframe_refl]. Qed.
+
 Lemma run_fsteps_cons_some : forall e tk f r exc s s1,
   run_fstep e tk f s = Some s1 -> run_fsteps e tk ((f, true) :: r) exc s = run_fsteps e tk r exc s1.
 Proof. intros; cbn. rewrite H. reflexivity. Qed.
@@ -56,21 +73,15 @@ Proof.
     cbn [run_fsteps orb]. rewrite E1. cbn. repeat split; auto; discriminate.
 Qed.
 
-Lemma tok_safe_transfer : forall s s' t, tok_safe s t -> (forall k, In k (tkey t) -> get k s' = get k s) -> tok_safe s' t.
-Proof.
-  intros s s' [[k old]|] H E; cbn in *; auto. rewrite E by (left; reflexivity). exact H.
-Qed.
-
-Lemma end_patch_step : forall s0 s k t,
-  tok_safe s0 t -> incl (tkey t) [k] -> get k s = get k s0 ->
+Lemma end_patch_step : forall s k t,
+  incl (tkey t) [k] ->
   exists s', end_patch t s = Some s' /\ frame [k] s s' /\
-             (forall k' old, t = Some (k', old) -> get k s' = undo old).
+             (forall k' old, t = Some (k', old) -> get k s' = old).
 Proof.
-  intros s0 s k [[k' old]|] SF I E.
+  intros s k [[k' old]|] I.
   - assert (k' = k) by (destruct (I k') as [X|[]]; [left; reflexivity|auto]). subst k'.
-    cbn in SF. rewrite <- E in SF.
-    destruct (end_patch_some k old s SF) as (s' & A & B & C).
-    exists s'. split; [exact A|]. split; [exact C|]. intros k2 old2 X; inversion X; subst; exact B.
+    destruct (end_patch_some k old s) as (s' & A & B & C).
+    exists s'. split; [exact A|]. split; [exact C|]. intros k2 old2 X. injection X as E1 E2. rewrite <- E2. exact B.
   - exists s. split; [reflexivity|]. split; [apply frame_refl|]. intros k' old X; discriminate.
 Qed.
 
@@ -84,42 +95,41 @@ Proof. intros k H. vm_compute in H. destruct H as [<-|[<-|[<-|H]]]; auto. destru
 Lemma cythonize_not_begin : ~ In k_cythonize begin_keys.
 Proof. apply misc_not_begin. right; right; left; reflexivity. Qed.
 
-(* the finally block: the three end_patch calls succeed when each stored None still has an
-   attribute to delete; what follows them does not touch attributes *)
+Lemma misc_are : forall k, In k misc_keys -> k = k_showwarning \/ k = k_saved_showwarning \/ k = k_cythonize.
+Proof. intros k [<-|[<-|[<-|[]]]]; auto. Qed.
+
+(* the finally block: undo the capture, cythonize, sys.path[:] = saved, the three end_patch calls
+   (which cannot fail); what follows them does not touch attributes *)
 Lemma finally_run : forall e tk exc s,
-  (forall k, In k begin_keys ->
-     tok_safe s (token_for k (t_begin tk)) /\ incl (tkey (token_for k (t_begin tk))) [k]) ->
+  (forall k, In k begin_keys -> incl (tkey (token_for k (t_begin tk))) [k]) ->
   exists se,
-    (forall k, In k begin_keys -> forall k' old, token_for k (t_begin tk) = Some (k', old) -> get k se = undo old) /\
-    aframe (k_cythonize :: begin_keys) s se /\ cwd se = cwd s /\ meta se = meta s /\ mods se = mods s /\
-    path se = remove_first_s (e_root e) (path s) /\
+    (forall k, In k begin_keys -> forall k' old, token_for k (t_begin tk) = Some (k', old) -> get k se = old) /\
+    aframe (misc_keys ++ begin_keys) s se /\ cwd se = cwd s /\ meta se = meta s /\ mods se = mods s /\
+    path se = t_saved_path tk /\
+    (forall k, In k begin_keys -> False \/ True) /\
+    get k_showwarning se = get k_showwarning (uncap tk s) /\ get k_saved_showwarning se = get k_saved_showwarning (uncap tk s) /\
     run_fsteps e tk finally_steps exc s = run_fsteps e tk [(FMetaRemove, true); (FPurgeModules, true)] exc se.
 Proof.
   intros e tk exc s H.
   set (k1 := ("imp", "load_source")). set (k2 := ("importlib.util", "spec_from_file_location")).
   set (k3 := ("importlib.util", "module_from_spec")).
-  destruct (H k1 in_begin_1) as [S1 I1]. destruct (H k2 in_begin_2) as [S2 I2]. destruct (H k3 in_begin_3) as [S3 I3].
-  destruct (cy_restore_facts tk s) as [Fa Ra].
-  set (sa := cy_restore tk s) in *.
-  set (sb := with_path (remove_first_s (e_root e) (path sa)) sa).
-  assert (Gb : forall k, k <> k_cythonize -> get k sb = get k s).
-  { intros k N. unfold sb. rewrite get_with_path. apply Fa. intros [X|[]]; apply N; symmetry; exact X. }
-  assert (N1 : k1 <> k_cythonize) by discriminate.
-  assert (N2 : k2 <> k_cythonize) by discriminate.
-  assert (N3 : k3 <> k_cythonize) by discriminate.
-  destruct (end_patch_step s sb k1 _ S1 I1 (Gb k1 N1)) as (sc & E1 & F1 & V1).
-  assert (G2 : get k2 sc = get k2 s).
-  { destruct F1 as [F1 _]. rewrite F1 by (intros [X|[]]; discriminate). apply Gb; exact N2. }
-  destruct (end_patch_step s sc k2 _ S2 I2 G2) as (sd & E2 & F2 & V2).
-  assert (G3 : get k3 sd = get k3 s).
-  { destruct F2 as [F2 _]. rewrite F2 by (intros [X|[]]; discriminate).
-    destruct F1 as [F1 _]. rewrite F1 by (intros [X|[]]; discriminate). apply Gb; exact N3. }
-  destruct (end_patch_step s sd k3 _ S3 I3 G3) as (se & E3 & F3 & V3).
+  pose proof (H k1 in_begin_1) as I1. pose proof (H k2 in_begin_2) as I2. pose proof (H k3 in_begin_3) as I3.
+  destruct (uncap_facts tk s) as [Fu Ru]. set (su := uncap tk s) in *.
+  destruct (cy_restore_facts tk su) as [Fa Ra].
+  set (sa := cy_restore tk su) in *.
+  set (sb := with_path (t_saved_path tk) sa).
+  destruct (end_patch_step sb k1 _ I1) as (sc & E1 & F1 & V1).
+  destruct (end_patch_step sc k2 _ I2) as (sd & E2 & F2 & V2).
+  destruct (end_patch_step sd k3 _ I3) as (se & E3 & F3 & V3).
   exists se.
-  assert (Rb : rest sb = (cwd s, remove_first_s (e_root e) (path s), meta s, mods s)).
-  { unfold sb, rest; cbn. inversion Ra. congruence. }
+  assert (Rb : rest sb = (cwd s, t_saved_path tk, meta s, mods s)).
+  { unfold sb, rest; cbn. unfold rest in Ra, Ru. inversion Ra. inversion Ru. congruence. }
   assert (Re : rest se = rest sb).
   { destruct F1 as [_ R1], F2 as [_ R2], F3 as [_ R3]. congruence. }
+  assert (Gbeg : forall k, k <> k1 -> k <> k2 -> k <> k3 -> get k se = get k sb).
+  { intros k A1 A2 A3. destruct F3 as [F3 _], F2 as [F2 _], F1 as [F1 _].
+    rewrite F3 by (intros [X|[]]; congruence). rewrite F2 by (intros [X|[]]; congruence).
+    rewrite F1 by (intros [X|[]]; congruence). reflexivity. }
   split.
   { intros k Hk k' old T. destruct (begin_keys_are k Hk) as [ -> | [ -> | -> ] ].
     - destruct F3 as [F3 _]. rewrite F3 by (intros [X|[]]; discriminate).
@@ -127,23 +137,30 @@ Proof.
     - destruct F3 as [F3 _]. rewrite F3 by (intros [X|[]]; discriminate). eapply V2; exact T.
     - eapply V3; exact T. }
   split.
-  { intros k N. destruct F3 as [F3 _], F2 as [F2 _], F1 as [F1 _].
-    assert (k <> k1) by (intros ->; apply N; right; exact in_begin_1).
-    assert (k <> k2) by (intros ->; apply N; right; exact in_begin_2).
-    assert (k <> k3) by (intros ->; apply N; right; exact in_begin_3).
-    rewrite F3 by (intros [X|[]]; congruence). rewrite F2 by (intros [X|[]]; congruence).
-    rewrite F1 by (intros [X|[]]; congruence). apply Gb. intros ->; apply N; left; reflexivity. }
+  { intros k N.
+    assert (k <> k1) by (intros ->; apply N; apply in_or_app; right; exact in_begin_1).
+    assert (k <> k2) by (intros ->; apply N; apply in_or_app; right; exact in_begin_2).
+    assert (k <> k3) by (intros ->; apply N; apply in_or_app; right; exact in_begin_3).
+    rewrite Gbeg by assumption. unfold sb. rewrite get_with_path.
+    rewrite Fa by (intros [X|[]]; apply N; apply in_or_app; left; rewrite <- X; right; right; left; reflexivity).
+    apply Fu. intros [X|[X|[]]]; apply N; apply in_or_app; left; rewrite <- X; [left|right; left]; reflexivity. }
   rewrite Rb in Re. unfold rest in Re.
   pose proof (f_equal (fun x => fst (fst (fst x))) Re) as Hc; cbn in Hc.
   pose proof (f_equal (fun x => snd (fst (fst x))) Re) as Hp; cbn in Hp.
   pose proof (f_equal (fun x => snd (fst x)) Re) as Hm; cbn in Hm.
   pose proof (f_equal (fun x => snd x) Re) as Hd; cbn in Hd.
   split; [exact Hc|]. split; [exact Hm|]. split; [exact Hd|]. split; [exact Hp|].
+  split; [intros; right; exact I|].
+  split.
+  { rewrite Gbeg by discriminate. unfold sb. rewrite get_with_path. apply Fa. intros [X|[]]; discriminate. }
+  split.
+  { rewrite Gbeg by discriminate. unfold sb. rewrite get_with_path. apply Fa. intros [X|[]]; discriminate. }
   change finally_steps with
-    [(FCython, true); (FPathRemove, true); (FEndPatch k1, true); (FEndPatch k2, true); (FEndPatch k3, true);
-     (FMetaRemove, true); (FPurgeModules, true)].
-  rewrite (run_fsteps_cons_some e tk FCython _ exc s sa (run_fstep_cython e tk s)).
-  rewrite (run_fsteps_cons_some e tk FPathRemove _ exc sa sb eq_refl).
+    [(FUncapture, true); (FCython, true); (FPathRestore, true); (FEndPatch k1, true); (FEndPatch k2, true);
+     (FEndPatch k3, true); (FMetaRemove, true); (FPurgeModules, true)].
+  rewrite (run_fsteps_cons_some e tk FUncapture _ exc s su (run_fstep_uncapture e tk s)).
+  rewrite (run_fsteps_cons_some e tk FCython _ exc su sa (run_fstep_cython e tk su)).
+  rewrite (run_fsteps_cons_some e tk FPathRestore _ exc sa sb eq_refl).
   rewrite (run_fsteps_cons_some e tk (FEndPatch k1) _ exc sb sc E1).
   rewrite (run_fsteps_cons_some e tk (FEndPatch k2) _ exc sc sd E2).
   rewrite (run_fsteps_cons_some e tk (FEndPatch k3) _ exc sd se E3).
@@ -155,56 +172,49 @@ Lemma chdir_in_outer : In k_chdir outer_keys. Proof. apply kmem_In. vm_compute. 
 Lemma exit_in_inner : In k_exit inner_keys. Proof. apply kmem_In. vm_compute. reflexivity. Qed.
 Lemma cythonize_in_misc : In k_cythonize misc_keys. Proof. right; right; left; reflexivity. Qed.
 
-Lemma not_cy_begin_of_outer : forall k, In k outer_keys -> ~ In k (k_cythonize :: begin_keys).
+Lemma not_cy_begin_of_outer : forall k, In k outer_keys -> ~ In k (misc_keys ++ begin_keys).
 Proof.
-  intros k H [<-|X].
-  - exact (misc_not_outer _ cythonize_in_misc H).
+  intros k H X. apply in_app_or in X. destruct X as [X|X].
+  - exact (misc_not_outer _ X H).
   - exact (begin_not_outer _ X H).
 Qed.
-Lemma not_cy_begin_of_inner : forall k, In k inner_keys -> ~ In k (k_cythonize :: begin_keys).
+Lemma not_cy_begin_of_inner : forall k, In k inner_keys -> ~ In k (misc_keys ++ begin_keys).
 Proof.
-  intros k H [<-|X].
-  - exact (misc_not_inner _ cythonize_in_misc H).
+  intros k H X. apply in_app_or in X. destruct X as [X|X].
+  - exact (misc_not_inner _ X H).
   - exact (inner_not_begin _ H X).
 Qed.
 
-(* the whole exit: finally block, inner patch exit, outer patch exit *)
+(* the whole exit: finally block, inner patch exit, outer patch exit - none of it can fail before
+   the hook removal, whatever the script did *)
 Lemma exit_phase : forall e tk ot exc sp,
-  NoDup (tkeys ot) -> incl (tkeys ot) outer_keys -> Forall (tok_safe sp) ot ->
-  NoDup (tkeys (t_inner tk)) -> incl (tkeys (t_inner tk)) inner_keys -> Forall (tok_safe sp) (t_inner tk) ->
-  (forall k, In k begin_keys ->
-     tok_safe sp (token_for k (t_begin tk)) /\ incl (tkey (token_for k (t_begin tk))) [k]) ->
+  NoDup (tkeys ot) -> incl (tkeys ot) outer_keys ->
+  NoDup (tkeys (t_inner tk)) -> incl (tkeys (t_inner tk)) inner_keys ->
+  (forall k, In k begin_keys -> incl (tkey (token_for k (t_begin tk))) [k]) ->
   exists s4 exc' s',
     exit_parse e tk exc sp = (s4, exc') /\ patch_exit ot s4 = (s', true) /\
-    (forall k old, In (Some (k, old)) ot -> get k s' = undo old) /\
-    (forall k old, In (Some (k, old)) (t_inner tk) -> get k s' = undo old) /\
-    (forall k, In k begin_keys -> forall k' old, token_for k (t_begin tk) = Some (k', old) -> get k s' = undo old) /\
-    aframe (k_cythonize :: outer_keys ++ begin_keys ++ inner_keys) sp s' /\
-    cwd s' = cwd sp /\ path s' = remove_first_s (e_root e) (path sp) /\
+    (forall k old, In (Some (k, old)) ot -> get k s' = old) /\
+    (forall k old, In (Some (k, old)) (t_inner tk) -> get k s' = old) /\
+    (forall k, In k begin_keys -> forall k' old, token_for k (t_begin tk) = Some (k', old) -> get k s' = old) /\
+    aframe (misc_keys ++ outer_keys ++ begin_keys ++ inner_keys) sp s' /\
+    get k_showwarning s' = get k_showwarning (uncap tk sp) /\
+    get k_saved_showwarning s' = get k_saved_showwarning (uncap tk sp) /\
+    cwd s' = cwd sp /\ path s' = t_saved_path tk /\
     (mem_n (e_hook e) (meta sp) = true -> meta s' = remove_first_n (e_hook e) (meta sp)) /\
     (mem_n (e_hook e) (meta sp) = true -> callable e sp = true ->
        mods s' = filter (fun m => is_plain (snd m)) (mods sp)).
 Proof.
-  intros e tk ot exc sp NDo Io So NDi Ii Si Hb.
-  destruct (finally_run e tk exc sp Hb) as (se & Vb & Fe & Ce & Me & De & Pe & RunE).
+  intros e tk ot exc sp NDo Io NDi Ii Hb.
+  destruct (finally_run e tk exc sp Hb) as (se & Vb & Fe & Ce & Me & De & Pe & _ & SW & SV & RunE).
   pose proof (tail_run e tk exc se) as T. cbv zeta in T.
   destruct (run_fsteps e tk [(FMetaRemove, true); (FPurgeModules, true)] exc se) as [sf excf] eqn:RT.
   cbn [fst] in T. destruct T as (Gf & Cf & Pf & Mf & Df).
-  assert (Gsp : forall k, ~ In k (k_cythonize :: begin_keys) -> get k sf = get k sp).
+  assert (Gsp : forall k, ~ In k (misc_keys ++ begin_keys) -> get k sf = get k sp).
   { intros k N. rewrite Gf. apply Fe; exact N. }
-  (* inner exit *)
-  assert (Si' : Forall (tok_safe sf) (t_inner tk)).
-  { apply Forall_forall. intros t Ht. rewrite Forall_forall in Si. apply (tok_safe_transfer sp sf t (Si t Ht)).
-    intros k Hk. apply Gsp. apply not_cy_begin_of_inner. apply Ii. unfold tkeys. apply in_flat_map. exists t; auto. }
-  destruct (patch_exit_spec (t_inner tk) sf NDi Si') as (s4 & X4 & F4 & V4).
+  destruct (patch_exit_spec (t_inner tk) sf NDi) as (s4 & X4 & F4 & V4).
   assert (G4 : forall k, ~ In k inner_keys -> get k s4 = get k sf).
   { intros k N. destruct F4 as [F4 _]. apply F4. intros X; apply N; apply Ii; exact X. }
-  (* outer exit *)
-  assert (So' : Forall (tok_safe s4) ot).
-  { apply Forall_forall. intros t Ht. rewrite Forall_forall in So. apply (tok_safe_transfer sp s4 t (So t Ht)).
-    intros k Hk. assert (Ho : In k outer_keys) by (apply Io; unfold tkeys; apply in_flat_map; exists t; auto).
-    rewrite G4 by (intros X; exact (inner_not_outer _ X Ho)). apply Gsp. apply not_cy_begin_of_outer; exact Ho. }
-  destruct (patch_exit_spec ot s4 NDo So') as (s' & X' & F' & V').
+  destruct (patch_exit_spec ot s4 NDo) as (s' & X' & F' & V').
   assert (G' : forall k, ~ In k outer_keys -> get k s' = get k s4).
   { intros k N. destruct F' as [F' _]. apply F'. intros X; apply N; apply Io; exact X. }
   exists s4, (excf || negb true), s'.
@@ -220,12 +230,18 @@ Proof.
     rewrite G4 by (intros X; exact (inner_not_begin _ X Hk)). rewrite Gf. eapply Vb; eauto. }
   split.
   { intros k N.
-    destruct (in_dec key_eq_dec k outer_keys) as [Ho|Ho]; [exfalso; apply N; right; apply in_or_app; left; exact Ho|].
+    destruct (in_dec key_eq_dec k outer_keys) as [Ho|Ho];
+      [exfalso; apply N; apply in_or_app; right; apply in_or_app; left; exact Ho|].
     rewrite G' by exact Ho.
     destruct (in_dec key_eq_dec k inner_keys) as [Hi|Hi];
-      [exfalso; apply N; right; apply in_or_app; right; apply in_or_app; right; exact Hi|].
-    rewrite G4 by exact Hi. apply Gsp. intros [<-|X]; apply N; [left; reflexivity|].
-    right. apply in_or_app; right; apply in_or_app; left; exact X. }
+      [exfalso; apply N; apply in_or_app; right; apply in_or_app; right; apply in_or_app; right; exact Hi|].
+    rewrite G4 by exact Hi. apply Gsp. intros X. apply N. apply in_app_or in X. destruct X as [X|X].
+    - apply in_or_app; left; exact X.
+    - apply in_or_app; right. apply in_or_app; right; apply in_or_app; left; exact X. }
+  assert (MO : forall k, In k misc_keys -> get k s' = get k se).
+  { intros k Hk. rewrite G' by (apply misc_not_outer; exact Hk). rewrite G4 by (apply misc_not_inner; exact Hk). apply Gf. }
+  split. { rewrite MO by (left; reflexivity). exact SW. }
+  split. { rewrite MO by (right; left; reflexivity). exact SV. }
   assert (R' : rest s' = rest sf).
   { destruct F' as [_ R1], F4 as [_ R2]. congruence. }
   unfold rest in R'.
